@@ -181,13 +181,13 @@ m = {
  'version': 1,
  'setup_cmd': './setup.sh',
  'hooks': {'guard': 'rce_verif',
-           'enable': 'checks copy /repo\'s working tree to a scratch directory under /verif/.cache, append `#[cfg(rce_verif)]` helper modules there and build with RUSTFLAGS=--cfg rce_verif; nothing is changed in /repo',
+           'enable': 'checks copy /repo\'s working tree to a scratch directory under /verif/.cache, append `#[cfg(rce_verif)]` helper modules there and build with RUSTFLAGS=--cfg rce_verif (plus --cfg rce_verif_search2 for the optional search-replay module and --cfg rce_verif_cachehook for one `#[cfg(rce_verif_cachehook)]` call inserted - in the scratch copy only - at the entry of Search::alpha_beta, which empties the cache while the C11 replay runs; when that part does not build on a changed tree the helper is built without it); nothing is changed in /repo',
            'baseline_off_cmd': 'cd /repo && cargo test --workspace --no-fail-fast --offline',
            'source_commits': [], 'add_only': True},
  'engines': [{'name': 'mirsym', 'path': '/verif/mirsym', 'serves_properties': sorted(CHECKS),
               'kind_free_text': 'symbolic executor for rustc MIR text (python) producing z3 terms; z3 decides, cvc5 re-decides in the thorough tier; models replayed on a natively built helper'}],
  'checks': checks,
- 'notes': 'See DESIGN.md. Exit codes: 0 held, 1 VIOLATION (reproduced natively), 2 inconclusive (no verdict; never reported as held).',
+ 'notes': 'See DESIGN.md. Exit codes: 0 held, 1 VIOLATION (a concrete replay on the real code where one exists; for C11-C13 a solver model over the abstract game that says whether the native battery reproduced it), 2 inconclusive (no verdict; never reported as held).',
  'not_applicable': na,
 }
 json.dump(m, open(os.path.join(HERE, 'MANIFEST.json'), 'w'), indent=1)
